@@ -337,3 +337,21 @@ V("C02", "twin-positional-args", "mdtraj/formats/netcdf.py", """        xyz, tim
             stride=stride,
             atom_indices=atom_indices,
         )""", """        xyz, time, cell_lengths, cell_angles = self.read(n_frames, stride, atom_indices)""", None)
+
+# twins learnt from the independently seeded changes (the refactoring without the bug must stay silent)
+V("C04", "twin-hdf5-getter-uses-dict-get", "mdtraj/formats/hdf5.py",
+  """                try:
+                    segment_id = residue_dict["segmentID"]
+                except KeyError:
+                    segment_id = \"\"""", """                segment_id = residue_dict.get("segmentID", \"\")""", None)
+V("C20", "twin-excl-flag-guard-with-trunc", "mdtraj/formats/amberrst.py",
+  """        if mode == "w":
+            self._needs_initialization = True
+            self._handle = open(filename, mode)""", """        if mode == "w":
+            self._needs_initialization = True
+            flags = os.O_WRONLY | os.O_CREAT | os.O_TRUNC
+            if not force_overwrite:
+                flags |= os.O_EXCL
+            self._handle = os.fdopen(os.open(filename, flags, 0o666), mode)""", None)
+V("C03", "twin-slice-key-asarray-no-dtype", "mdtraj/core/trajectory.py", "        xyz = self.xyz[key]\n        time = self.time[key]",
+  "        if isinstance(key, (list, tuple)):\n            key = np.asarray(key)\n        xyz = self.xyz[key]\n        time = self.time[key]", None)
